@@ -28,6 +28,10 @@ TRUSTED = ["coq/Nest/Raw.v is a hand transcription of the raw_enabled loop of Pa
            "in-process recording of builtins.open / io.open / pathlib.Path.read_text,read_bytes,open / docutils.io.FileInput",
            "docutils html5 writer (the written output that is searched for sentinel markup)"]
 ORACLES = {
+    "O_settings_identity": "every docutils directive instance (state, state_machine, memo), role call (inliner) and rST parse run is "
+                           "handed an object whose .document.settings IS the main document's settings object (search: identity "
+                           "recorded through Directive.__init__, roles.role, rst Parser.parse on every sentinel document; "
+                           "structurally: C20_settings_shared over Gen/SettingsSites.v)",
     "O_docutils_checks": "docutils' own raw role / raw directive / csv-table :file: / rST include honour raw_enabled and "
                          "file_insertion_enabled when handed the real document settings through the mocks "
                          "(search: raw-directive, raw-role, derived role, eval-rst raw, csv-file, raw-file, rst-include)",
@@ -44,6 +48,11 @@ def gen(ctx):
     text, info = c20_rawsites.generate(REPO)
     write_if_changed(COQ / "Gen" / "RawSites.v", text)
     ctx.gen_info["RawSites.v"] = info["sha"]
+    from gen import c20_settings
+    stext, sinfo = c20_settings.generate(REPO)
+    write_if_changed(COQ / "Gen" / "SettingsSites.v", stext)
+    ctx.gen_info["SettingsSites.v"] = sinfo["sha"]
+    ctx.gen_info["settings_sites"] = [f"{x['where']}: {x['what']} <- {x['expr']} ({x['prov']})" for x in sinfo["sites"]]
     from gen import c20_src
     import hashlib
     src = c20_src.generate(REPO)       # raises Untranslatable on any statement outside the mapping
@@ -118,6 +127,53 @@ def record_fs():
         builtins.open, io.open = o_open, o_ioopen
         P.read_text, P.read_bytes, P.open = o_rt, o_rb, o_po
         docutils.io.FileInput.__init__ = o_fi
+
+
+# ------------------------------------------------------------------ settings identity (O_docutils_checks)
+
+@contextlib.contextmanager
+def record_settings():
+    """record the settings object every docutils directive instance, role call and rST parse run actually sees"""
+    from docutils.parsers.rst import Directive, roles
+    from docutils.parsers.rst import Parser as RSTParser
+    seen = []
+    o_init, o_role, o_parse = Directive.__init__, roles.role, RSTParser.parse
+
+    def w_init(self, *a, **k):
+        o_init(self, *a, **k)
+        for label, obj in (("directive.state", getattr(self, "state", None)),
+                           ("directive.state_machine", getattr(self, "state_machine", None))):
+            doc = getattr(obj, "document", None)
+            if doc is not None:
+                seen.append((f"{label}:{self.name}", doc.settings))
+        memo = getattr(getattr(self, "state", None), "memo", None)
+        if memo is not None and getattr(memo, "document", None) is not None:
+            seen.append((f"directive.state.memo:{self.name}", memo.document.settings))
+
+    def w_role(role_name, language_module, lineno, reporter):
+        fn, msgs = o_role(role_name, language_module, lineno, reporter)
+        if fn is None:
+            return fn, msgs
+
+        def wrapped(name, rawtext, text, lineno, inliner, *a, **k):
+            doc = getattr(inliner, "document", None)
+            if doc is not None:
+                seen.append((f"role.inliner:{role_name}", doc.settings))
+            return fn(name, rawtext, text, lineno, inliner, *a, **k)
+        for attr in ("options", "content", "name", "base_role", "supplied_options", "supplied_content"):
+            if hasattr(fn, attr):
+                setattr(wrapped, attr, getattr(fn, attr))
+        return wrapped, msgs
+
+    def w_parse(self, inputstring, document):
+        seen.append(("rst-parser.document", document.settings))
+        return o_parse(self, inputstring, document)
+
+    Directive.__init__, roles.role, RSTParser.parse = w_init, w_role, w_parse
+    try:
+        yield seen
+    finally:
+        Directive.__init__, roles.role, RSTParser.parse = o_init, o_role, o_parse
 
 
 # ------------------------------------------------------------------ constructs
@@ -287,12 +343,14 @@ def run_doc(case, raw_enabled, file_insertion):
               "raw_enabled": raw_enabled, "file_insertion_enabled": file_insertion,
               "myst_enable_extensions": case["ext"], "embed_stylesheet": False, "stylesheet_path": None}
         src = os.path.join(d, "main.md")
-        with record_fs() as tr:
+        with record_fs() as tr, record_settings() as seen:
             try:
                 doc = publish_doctree(text, source_path=src, parser=Parser(), settings_overrides=so)
             except Exception as e:
                 out["exc"] = e
                 return out
+        out["foreign_settings"] = sorted({lab for lab, st in seen if st is not doc.settings})
+        out["settings_seen"] = len(seen)
         deps = [os.path.normpath(os.path.abspath(x)) for x in doc.settings.record_dependencies.list]
         out["trace"] = {}
         for c in cs:
@@ -331,6 +389,10 @@ def check_doc(ctx, case, quiet=False):
             problems.append((f"exception:{type(r['exc']).__name__}", f"raised {r['exc']!r} under {tag}", None, repr(r["exc"])))
             continue
         body = body_of(r["html"])
+        if r["foreign_settings"]:
+            problems.append(("settings:not-shared", f"docutils code was handed a settings object that is not the document's "
+                             f"under {tag}: {r['foreign_settings'][:4]}", "the main document's settings object",
+                             r["foreign_settings"][:6]))
         if not raw_on:
             if r["raw_nodes"]:
                 problems.append(("raw:survives", f"raw node(s) in the doctree under {tag}: {r['raw_nodes'][:3]}",
